@@ -6,6 +6,8 @@ pub mod c01;
 pub mod c03;
 pub mod c08;
 pub mod c09;
+pub mod c02;
+pub mod c11;
 pub mod c12;
 pub mod features;
 
@@ -35,6 +37,8 @@ impl Monitors {
                 "C08" => v.push(Box::new(c08::C08::new(p))),
                 "C09" => v.push(Box::new(c09::C09::new(p))),
                 "C12" => v.push(Box::new(c12::C12::new(p))),
+                "C02" => v.push(Box::new(c02::C02::new(p))),
+                "C11" => v.push(Box::new(c11::C11::new(p))),
                 other => panic!("unknown monitor {other}"),
             }
         }
